@@ -93,9 +93,13 @@ func c13aParams(thorough bool) []c13aParam {
 	add("two-fathers", []string{base, "aagtac", "acgtaa", "aagtaa"}, []int{10, 9, 3, 1})
 	// indel variants
 	add("indel-star", []string{base, "acgta", "acgtacc"}, []int{8, 2, 1})
+	// sequences without any one-difference father: their lines are compared by extendSimilarityGraph
+	// (distance >= 2), each worker with its own alignment scratch buffer
+	add("two-edit-pair", []string{base, "aagtaa", "acgtgg"}, []int{9, 2, 1})
+	add("two-edit-12mers", []string{"acgtacgtacgt", "aagtacgtaagt", "acgacgtacgtt", "acgtacggtacgtt"}, []int{9, 3, 2, 1})
 	if thorough {
+		add("two-edit-three", []string{base, "aagtaa", "acgtgg", "ccgtcc"}, []int{9, 3, 2, 1})
 		add("star3", []string{base, "aagtac", "acgtaa", "acgtcc", "ccgtac"}, []int{10, 2, 1, 1, 3})
-		add("two-edit", []string{base, "aagtaa", "acgtac"[0:4] + "gg"}, []int{9, 2, 1})
 	}
 	return out
 }
@@ -149,53 +153,74 @@ func TestVerifC13A(t *testing.T) {
 		if k < 2 {
 			r.Sample(map[string]any{"param": p, "reference_graph": ref})
 		}
-		cfg := vsched.Config{Name: p.Name, Full: true, Horizon: 8000, MaxExec: 300000, Expired: r.Expired}
-		cfg.Check = func(x *vsched.Exec) string {
-			switch x.Outcome() {
-			case "":
-			default:
-				return x.Outcome() + "|" + x.Detail()
+		bound := 1
+		if verifkit.Thorough() || strings.HasPrefix(p.Name, "two-edit") {
+			// two workers are inside the alignment kernel at the same time only after two deviations
+			// (the feeder hands out the next line, the other worker takes it)
+			bound = 2
+		}
+		type c13aMode struct {
+			name string
+			cfg  vsched.Config
+		}
+		modes := []c13aMode{
+			{"delay-policy0", vsched.Config{Name: p.Name, DelayBounding: true, Preemptions: bound, Policy: 0, Horizon: 20000, MaxExec: 60000, Expired: r.Expired}},
+			{"delay-policy1", vsched.Config{Name: p.Name, DelayBounding: true, Preemptions: bound, Policy: 1, Horizon: 20000, MaxExec: 60000, Expired: r.Expired}},
+			{"full", vsched.Config{Name: p.Name, Full: true, Horizon: 20000, MaxExec: 150000, Expired: r.Expired}},
+		}
+		if strings.HasPrefix(p.Name, "two-edit") && !verifkit.Thorough() {
+			modes = modes[:2] // the kernel's ~200 racy-looking cell accesses make the unbounded search too large for the quick tier
+		}
+		for _, md := range modes {
+			cfg := md.cfg
+			cfg.Check = func(x *vsched.Exec) string {
+				switch x.Outcome() {
+				case "":
+				default:
+					return x.Outcome() + "|" + x.Detail()
+				}
+				got, _ := x.Obs.(string)
+				if got != ref {
+					return "differs|with " + fmt.Sprint(p.Workers) + " workers:\n" + got + "with 1 worker:\n" + ref
+				}
+				return ""
 			}
-			got, _ := x.Obs.(string)
-			if got != ref {
-				return "differs|with " + fmt.Sprint(p.Workers) + " workers:\n" + got + "with 1 worker:\n" + ref
+			st := vsched.Explore(cfg, func(x *vsched.Exec) { x.Obs = c13aRun(p) })
+			r.Eval(st.Executions)
+			r.Trace(st.Executions)
+			r.Trans(st.Points)
+			r.Replayed(st.ReplaysChecked)
+			r.Count("hb_states", st.States)
+			r.Count("executions_"+md.name, st.Executions)
+			r.Count("conflict_sites", int64(len(st.ConflictSites)))
+			for o, n := range st.Outcomes {
+				r.Count("outcome_"+o, n)
 			}
-			return ""
-		}
-		st := vsched.Explore(cfg, func(x *vsched.Exec) { x.Obs = c13aRun(p) })
-		r.Eval(st.Executions)
-		r.Trace(st.Executions)
-		r.Trans(st.Points)
-		r.Replayed(st.ReplaysChecked)
-		r.Count("hb_states", st.States)
-		r.Count("conflict_sites", int64(len(st.ConflictSites)))
-		for o, n := range st.Outcomes {
-			r.Count("outcome_"+o, n)
-		}
-		for h := range st.TraceHashes {
-			r.StateH(h)
-		}
-		if st.Capped {
-			r.Cap("execution cap or deadline reached for " + p.Name)
-		}
-		for _, s := range st.ConflictSites {
-			r.Note("conflict site (unsynchronised shared access made a scheduling point): %s", s)
-		}
-		seen := map[string]bool{}
-		for _, v := range st.Violations {
-			parts := strings.SplitN(v.Desc, "|", 2)
-			class := parts[0]
-			key := "obiclean/graph/" + class
-			if class == "differs" {
-				key = "obiclean/graph-depends-on-schedule"
+			for h := range st.TraceHashes {
+				r.StateH(h)
 			}
-			if seen[key] {
-				continue
+			if st.Capped {
+				r.Cap("execution cap or deadline reached for " + p.Name + " in mode " + md.name)
 			}
-			seen[key] = true
-			qq := p
-			qq.Choices = v.Choices
-			r.Violate(key, fmt.Sprintf("%s seqs=%v counts=%v workers=%d distance=%d ratio=%v schedule=%v: %s", p.Name, p.Seqs, p.Counts, p.Workers, p.Dist, p.Ratio, v.Choices, parts[1]), qq)
+			for _, s := range st.ConflictSites {
+				r.Note("conflict site (unsynchronised shared access made a scheduling point): %s", s)
+			}
+			seen := map[string]bool{}
+			for _, v := range st.Violations {
+				parts := strings.SplitN(v.Desc, "|", 2)
+				class := parts[0]
+				key := "obiclean/graph/" + class
+				if class == "differs" {
+					key = "obiclean/graph-depends-on-schedule"
+				}
+				if seen[key] {
+					continue
+				}
+				seen[key] = true
+				qq := p
+				qq.Choices = v.Choices
+				r.Violate(key, fmt.Sprintf("%s seqs=%v counts=%v workers=%d distance=%d ratio=%v mode=%s schedule=%v: %s", p.Name, p.Seqs, p.Counts, p.Workers, p.Dist, p.Ratio, md.name, v.Choices, parts[1]), qq)
+			}
 		}
 	}
 	r.RequireNonVacuous("outcome_completed")
